@@ -66,8 +66,13 @@ class Lock:
         self.f.close()
 
 
-def coq_make(targets=None, timeout=3000):
-    """full .vo build of the development (incremental).  Returns (ok, output)."""
+def coq_make(targets=None, timeout=None):
+    """full .vo build of the development (or of some targets), incremental.  Returns (ok, output).
+    The shared lock is held only while _CoqProject / Makefile / dependencies are regenerated; the build itself
+    runs outside it, with a memory limit per coqc (VERIF_COQ_MEM_KB, default 12 GB) and a time limit
+    (VERIF_COQ_TIMEOUT seconds, default 1500) so that one runaway proof cannot block or starve other checks."""
+    timeout = timeout or int(os.environ.get("VERIF_COQ_TIMEOUT", "1500"))
+    mem = int(os.environ.get("VERIF_COQ_MEM_KB", str(12 * 1024 * 1024)))
     with Lock("coq.lock"):
         coq_project()
         if not os.path.exists(os.path.join(COQ, "Makefile")) or \
@@ -75,9 +80,10 @@ def coq_make(targets=None, timeout=3000):
             rc, o = sh("coq_makefile -f _CoqProject -o Makefile", cwd=COQ, timeout=120)
             if rc != 0:
                 return False, o
-        cmd = ["make", "-j16"] + (targets or [])
-        rc, o = sh(cmd, cwd=COQ, timeout=timeout)
-        return rc == 0, o
+        sh("make .Makefile.d", cwd=COQ, timeout=300)
+    cmd = "ulimit -v %d; exec make -j%s %s" % (mem, os.environ.get("VERIF_COQ_JOBS", "8"), " ".join(targets or []))
+    rc, o = sh(cmd, cwd=COQ, timeout=timeout)
+    return rc == 0, o
 
 
 def coq_project():
